@@ -231,7 +231,7 @@ else:
         with cond:
             grants["A"] = None
             cond.notify_all()
-    deadline = time.time() + float(job.get("deadline", 20))
+    deadline = time.time() + float(job.get("deadline", 60))
     while time.time() < deadline and len(finished) < len(threads):
         with cond:
             for t in threads:
